@@ -7,6 +7,7 @@ import (
 	"github.com/aperturerobotics/bifrost/peer"
 	"github.com/aperturerobotics/bifrost/protocol"
 	"github.com/aperturerobotics/controllerbus/directive"
+	"github.com/sirupsen/logrus"
 	rt "github.com/aperturerobotics/bifrost/zz_verifrt"
 )
 
@@ -46,7 +47,7 @@ func VerifC34Accept() {
 	for i := 0; i < nr; i++ {
 		remotes = append(remotes, c34Peer("cfgRemote"))
 	}
-	c := &Controller{conf: &Config{}, protocolID: protocol.ID(cfgPid), localPeerID: cfgLocal, remotePeerIDs: remotes}
+	c := &Controller{le: logrus.NewEntry(logrus.New()), conf: &Config{}, protocolID: protocol.ID(cfgPid), localPeerID: cfgLocal, remotePeerIDs: remotes}
 	d, pid, local, remote := c34Stream()
 	res, err := c.HandleDirective(context.Background(), c34DI{d: d})
 	rt.Assert("no error", err == nil)
